@@ -1,7 +1,7 @@
 (* DapProofs.v -- proofs about the debug-adapter protocol model (model/Dap.v) against spec/DapSpec.v. *)
 From Coq Require Import List ZArith Bool Lia.
 Import ListNotations.
-From Mos Require Import model.Dap spec.DapSpec.
+From Mos Require Import model.Dap Gen.DapShape spec.DapSpec.
 Open Scope Z_scope.
 
 Section DapProofs.
@@ -394,3 +394,6 @@ Proof.
   exists Z, (fun _ => 7), Z.succ, (fun _ => false), Z.succ, Z.succ, 0.
   vm_compute. repeat split; discriminate.
 Qed.
+
+Lemma event_table_ok : forall e : mevent, event_of e = gen_event_of e.
+Proof. intros [[| |p] [| |q]| |]; reflexivity. Qed.
